@@ -24,6 +24,11 @@ const PROTOCOL_PROGRAMS: &[(&str, &str)] = &[
     ("all-then-more", "async function main(){ const p1 = order({k: 1}); const p2 = order({k: 2}); const r = await Promise.all([p1, p2]); const c = await order({k: r[0] + r[1]}); return [r, c]; }"),
     ("race-2", "async function main(){ const p1 = order({k: 1}); const p2 = order({k: 2}); const w = await Promise.race([p1, p2]); return typeof w; }"),
     ("race-3-then-order", "async function main(){ const ps = [order({k: 1}), order({k: 2}), order({k: 3})]; const w = await Promise.race(ps); const after = await order({k: 10}); return [typeof w, after]; }"),
+    ("race-tagged-3-then-order", "async function main(){ const ps = [order({k: 1, r: 1}), order({k: 2, r: 1}), order({k: 3, r: 1})]; const w = await Promise.race(ps); const after = await order({k: 10}); return [typeof w, after]; }"),
+    ("race-mixed-unlinked-first", "async function main(){ const never = new Promise(function(){}); const ps = [never, order({k: 1, r: 1}), order({k: 2, r: 1}), order({k: 3, r: 1})]; const w = await Promise.race(ps); const after = await order({k: 10}); return [typeof w, after]; }"),
+    ("race-mixed-unlinked-middle", "async function main(){ const never = new Promise(function(){}); const later = new Promise(function(){}); const ps = [order({k: 1, r: 1}), never, order({k: 2, r: 1}), later, order({k: 3, r: 1})]; const w = await Promise.race(ps); const after = await order({k: 10}); const more = await order({k: 11}); return [typeof w, after, more]; }"),
+    ("race-mixed-plain-values-last", "async function main(){ const ps = [order({k: 1, r: 1}), order({k: 2, r: 1}), new Promise(function(){})]; const w = await Promise.race(ps); const after = await order({k: 10}); return [typeof w, after]; }"),
+    ("race-twice", "async function main(){ const w1 = await Promise.race([new Promise(function(){}), order({k: 1, r: 1}), order({k: 2, r: 1})]); const mid = await order({k: 5}); const w2 = await Promise.race([order({k: 3}), order({k: 4})]); const after = await order({k: 10}); return [typeof w1, mid, typeof w2, after]; }"),
     ("any-2", "async function main(){ const p1 = order({k: 1}); const p2 = order({k: 2}); const w = await Promise.any([p1, p2]); return typeof w; }"),
     ("allSettled-2", "async function main(){ const p1 = order({k: 1}); const p2 = order({k: 2}); const r = await Promise.allSettled([p1, p2]); return r.map(x => x.status).sort(); }"),
     ("error-middle", "async function main(){ const out = []; for (const p of [{k: 1}, {err: 'bad'}, {k: 3}]) { try { out.push(await order(p)); } catch (e) { out.push('E:' + String(e)); } } return out; }"),
